@@ -1,6 +1,7 @@
 package main
 
 import (
+	"context"
 	"fmt"
 	"go/token"
 	"os"
@@ -8,7 +9,10 @@ import (
 	"path/filepath"
 	"regexp"
 	"strings"
+	"sync"
 	"time"
+
+	bpmn "github.com/olive-io/bpmn/v2"
 )
 
 func init() { commands["c17"] = runC17 }
@@ -35,7 +39,7 @@ func runC17(env *Env) {
 		env.WriteReport(rep)
 		return
 	}
-	subs := []string{"c06", "c10", "c11", "c07", "c18", "c02", "c08", "c12", "c01"}
+	subs := []string{"c17conc", "c06", "c10", "c11", "c07", "c18", "c02", "c08", "c12", "c01"}
 	seeds := []int64{env.Seed}
 	tier := "quick"
 	if env.Thorough() {
@@ -101,4 +105,80 @@ func firstLines(s string, n int) string {
 		l = l[:n]
 	}
 	return strings.Join(l, "\n")
+}
+
+// c17conc: the "concurrent use" driver of the property — one instance (a loop of a task that writes a data
+// object and variables), while other goroutines read variables and data objects, subscribe and unsubscribe,
+// deliver events and wait for completion.  Meant to run under the race detector (C17 runs it); without it only a
+// crash is noticed.
+func init() {
+	commands["c17conc"] = func(env *Env) {
+		rep := &Report{Property: "C17conc", Rule: "see c17"}
+		rounds := 3
+		for r := 0; r < rounds; r++ {
+			p := &Prog{}
+			p.Node("start", "start")
+			p.Node("xor", "M")
+			t := p.Node("task", "T")
+			t.Results = []string{"again", "n"}
+			t.Ext = `<olive:dataOutput name="out" targetRef="obj"/>`
+			x := p.Node("xor", "X")
+			p.Node("end", "end")
+			p.Flow("start", "M", "")
+			p.Flow("M", "T", "")
+			p.Flow("T", "X", "")
+			p.Flow("X", "M", "again")
+			x.Default = p.Flow("X", "end", "").ID
+			defs, err := ParseDefs(p.XML(`<bpmn:signal id="s0" name="s0"/>`))
+			must(err)
+			in, err := StartInst(defs, InstOpt{Vars: map[string]any{"again": true, "n": 0}})
+			must(err)
+			stop := make(chan struct{})
+			var wg sync.WaitGroup
+			reader := func(f func()) {
+				wg.Add(1)
+				go func() {
+					defer wg.Done()
+					for {
+						select {
+						case <-stop:
+							return
+						default:
+							f()
+						}
+					}
+				}()
+			}
+			loc := in.P.Locator()
+			reader(func() { loc.CloneVariables() })
+			reader(func() { loc.GetVariable("n") })
+			reader(func() { loc.CloneItems(".") })
+			reader(func() { loc.CloneItems("$"); loc.CloneItems("#") })
+			reader(func() {
+				ch := in.P.Tracer().Subscribe()
+				time.Sleep(200 * time.Microsecond)
+				in.P.Tracer().Unsubscribe(ch)
+			})
+			reader(func() { in.Signal("s0"); time.Sleep(100 * time.Microsecond) })
+			reader(func() {
+				c, cc := context.WithTimeout(context.Background(), time.Millisecond)
+				in.P.WaitUntilComplete(c)
+				cc()
+			})
+			for i := 0; i < 40; i++ {
+				tt := in.WaitTask("T", tmoStep)
+				if tt == nil {
+					rep.Violate("C17-stuck", fmt.Sprintf("round %d", r), "task not requested; log: "+logString(in.Log()))
+					break
+				}
+				tt.Do(bpmn.DoWithResults(map[string]any{"again": i < 39, "n": i}), bpmn.DoWithObjects(map[string]any{"out": i}))
+			}
+			in.WaitCease(tmoStep)
+			close(stop)
+			wg.Wait()
+			in.Close()
+			rep.Evaluations++
+		}
+		env.WriteReport(rep)
+	}
 }
